@@ -16,8 +16,9 @@ LAYOUTS = [
 
 CONTENTS = [b"", b"hello", b"world", b"hello", b"x" * 100, b"\x00\x01\xfe\xff binary \n\r", b"same", b"same", "ünï".encode(), b"0123456789" * 50]
 # `a.tmp` / `a` / `a.txt~`: names that collide with one another under the usual ways of deriving a temporary name
-EXT_FILES = ["a.txt", "b.txt", "c.dat", "d1/x.txt", "d1/y.txt", "d1/sub/z.txt", "d2/x.txt", "d2/deep/er/w.bin", "e", "a.tmp", "a", "d1/x.tmp", "a.txt~"]
-NAMES = ["a.txt", "b.txt", "n.txt", "d1", "d1/x.txt", "d1/sub", "d2", "new/dir/f", "e", "z"]
+EXT_FILES = ["a.txt", "b.txt", "c.dat", "d1/x.txt", "d1/y.txt", "d1/sub/z.txt", "d2/x.txt", "d2/deep/er/w.bin", "e", "a.tmp", "a", "d1/x.tmp", "a.txt~",
+             "d12/x.txt", "d1x/sub/q.txt"]      # directories whose names start with another directory's name
+NAMES = ["a.txt", "b.txt", "n.txt", "d1", "d1/x.txt", "d1/sub", "d2", "new/dir/f", "e", "z", "d12", "d1x/sub"]
 H_FILES = ['q"uote.txt', 'back\\slash.txt', 'new\nline', 'tab\there.txt', 'sp ace ', ' lead', 'ünï/日本/🙂.bin', '%25pct%', 'x' * 180,
            'ctl\x01\x1f', 'd"q/in"ner/f\\g', "it's", 'a.txt']
 H_NAMES = ['q"uote.txt', 'dst"q', 'back\\slash.txt', 'n\nl/x', 'sp ace /y ', '🙂/😀', 'd"q', 'ctl\x02', 'plain', 'd"q/in"ner']
@@ -447,7 +448,7 @@ class Gen:
                 srcs = rng.sample(H_FILES + ['ünï', 'd"q', 'd"q/in"ner', "missing"], rng.choice([1, 1, 1, 2, 3]))
                 dst = rng.choice(["/", ""] + H_NAMES + [n + "/" for n in H_NAMES[:4]])
             else:
-                srcs = rng.sample(EXT_FILES + ["d1", "d2", "d1/sub", "missing.txt"], rng.choice([1, 1, 1, 2, 3]))
+                srcs = rng.sample(EXT_FILES + ["d1", "d2", "d1/sub", "missing.txt", "d12", "d1x"], rng.choice([1, 1, 1, 2, 3]))
                 dst = rng.choice(["/", "", "a.txt", "new.txt", "d1", "d1/", "dir/", "d1/x.txt", "x/y/z", "e", "e/f", "bad/../p", "."])
             sc.add("cpx", "cpx %s %d %s %s" % (hx(oid), rng.randint(0, 1), hx(dst), " ".join(hx(s) for s in srcs)), kind="mut", id=oid)
         elif op == "mvx":
